@@ -1,2 +1,207 @@
--- line-protocol driver stub (Hash); replaced when the model exists
-def main : IO Unit := IO.println "stub"
+/-
+Line-protocol driver over `QbiceVerif.Model.Hash` (property C13).
+
+  H <seed> <type tokens> | <value tokens>   →  <hex write stream> <hash128 as 32 hex digits>
+  SIP <hex bytes>                            →  <sip128 as 32 hex digits>
+  anything else / malformed / ill-typed      →  bad-op | ill-typed
+
+Type tokens (prefix notation):
+  u8 u16 u32 u64 u128 usize i8 i16 i32 i64 i128 isize bool char f32 f64 unit str
+  opt T | res T E | seq T | arr n T | tup k T1..Tk | wrap T | uset T | umap K V
+  enum <discriminant bytes> <nvariants> (<disc> <k> T1..Tk)*
+Value tokens:
+  i<int> b0 b1 c<code point> f<f32 bits> d<f64 bits> u s<hex> N (S v) (O v) (E v)
+  L n v1..vn | T n v1..vn | W v | V idx n v1..vn
+-/
+import QbiceVerif.Model.Hash
+
+open QbiceVerif.Hash
+
+def hexDigit (n : Nat) : Char :=
+  if n < 10 then Char.ofNat (48 + n) else Char.ofNat (87 + n)
+
+def hexOfBytes (bs : Bytes) : String :=
+  if bs.isEmpty then "-" else
+  String.ofList (bs.foldr (fun b acc => hexDigit (b.toNat / 16) :: hexDigit (b.toNat % 16) :: acc) [])
+
+def hex128 (n : Nat) : String :=
+  String.ofList ((List.range 32).map (fun i => hexDigit ((n >>> (4 * (31 - i))) % 16)))
+
+def hexVal (c : Char) : Option Nat :=
+  if '0' ≤ c ∧ c ≤ '9' then some (c.toNat - 48)
+  else if 'a' ≤ c ∧ c ≤ 'f' then some (c.toNat - 87)
+  else none
+
+def parseHex (s : String) : Option Bytes :=
+  if s == "-" then some [] else
+  let rec go : List Char → Option Bytes
+    | [] => some []
+    | a :: b :: rest => do
+        let x ← hexVal a
+        let y ← hexVal b
+        let r ← go rest
+        pure (UInt8.ofNat (16 * x + y) :: r)
+    | _ => none
+  go s.toList
+
+def intTy (s : String) : Option Ty :=
+  match s with
+  | "u8" => some (.int false .w8) | "u16" => some (.int false .w16) | "u32" => some (.int false .w32)
+  | "u64" => some (.int false .w64) | "u128" => some (.int false .w128) | "usize" => some (.int false .w64)
+  | "i8" => some (.int true .w8) | "i16" => some (.int true .w16) | "i32" => some (.int true .w32)
+  | "i64" => some (.int true .w64) | "i128" => some (.int true .w128) | "isize" => some (.int true .w64)
+  | _ => none
+
+def widthOfBytes (s : String) : Option IntW :=
+  match s with
+  | "1" => some .w8 | "2" => some .w16 | "4" => some .w32 | "8" => some .w64 | "16" => some .w128
+  | _ => none
+
+mutual
+partial def parseTy : List String → Option (Ty × List String)
+  | [] => none
+  | tok :: rest =>
+    match intTy tok with
+    | some t => some (t, rest)
+    | none =>
+      match tok with
+      | "bool" => some (.bool, rest) | "char" => some (.char, rest)
+      | "f32" => some (.f32, rest) | "f64" => some (.f64, rest)
+      | "unit" => some (.unit, rest) | "str" => some (.str, rest)
+      | "opt" => do let (t, r) ← parseTy rest; pure (.option t, r)
+      | "res" => do
+          let (t, r) ← parseTy rest
+          let (e, r) ← parseTy r
+          pure (.result t e, r)
+      | "seq" => do let (t, r) ← parseTy rest; pure (.seq t, r)
+      | "wrap" => do let (t, r) ← parseTy rest; pure (.wrapper t, r)
+      | "uset" => do let (t, r) ← parseTy rest; pure (.uset t, r)
+      | "umap" => do
+          let (k, r) ← parseTy rest
+          let (v, r) ← parseTy r
+          pure (.umap k v, r)
+      | "arr" =>
+          match rest with
+          | n :: r => do
+              let n ← n.toNat?
+              let (t, r) ← parseTy r
+              pure (.array n t, r)
+          | _ => none
+      | "tup" =>
+          match rest with
+          | k :: r => do
+              let k ← k.toNat?
+              let (ts, r) ← parseTys k r
+              pure (.tuple ts, r)
+          | _ => none
+      | "enum" =>
+          match rest with
+          | dw :: nv :: r => do
+              let dw ← widthOfBytes dw
+              let nv ← nv.toNat?
+              let (vs, r) ← parseVars nv r
+              pure (.enum dw vs, r)
+          | _ => none
+      | _ => none
+partial def parseTys : Nat → List String → Option (TyList × List String)
+  | 0, r => some (.nil, r)
+  | k + 1, r => do
+      let (t, r) ← parseTy r
+      let (ts, r) ← parseTys k r
+      pure (.cons t ts, r)
+partial def parseVars : Nat → List String → Option (VarList × List String)
+  | 0, r => some (.nil, r)
+  | n + 1, d :: k :: r => do
+      let d ← d.toNat?
+      let k ← k.toNat?
+      let (fs, r) ← parseTys k r
+      let (vs, r) ← parseVars n r
+      pure (.cons d fs vs, r)
+  | _, _ => none
+end
+
+mutual
+partial def parseVal : List String → Option (Val × List String)
+  | [] => none
+  | tok :: rest =>
+    match tok with
+    | "u" => some (.unit, rest)
+    | "N" => some (.none, rest)
+    | "b0" => some (.bool false, rest)
+    | "b1" => some (.bool true, rest)
+    | "S" => do let (v, r) ← parseVal rest; pure (.some v, r)
+    | "O" => do let (v, r) ← parseVal rest; pure (.ok v, r)
+    | "E" => do let (v, r) ← parseVal rest; pure (.err v, r)
+    | "W" => do let (v, r) ← parseVal rest; pure (.wrap v, r)
+    | "L" =>
+        match rest with
+        | n :: r => do
+            let n ← n.toNat?
+            let (vs, r) ← parseVals n r
+            pure (.list vs, r)
+        | _ => none
+    | "T" =>
+        match rest with
+        | n :: r => do
+            let n ← n.toNat?
+            let (vs, r) ← parseVals n r
+            pure (.tuple vs, r)
+        | _ => none
+    | "V" =>
+        match rest with
+        | i :: n :: r => do
+            let i ← i.toNat?
+            let n ← n.toNat?
+            let (vs, r) ← parseVals n r
+            pure (.variant i vs, r)
+        | _ => none
+    | _ =>
+      match tok.toList with
+      | 'i' :: ds => do let i ← (String.ofList ds).toInt?; pure (.int i, rest)
+      | 'c' :: ds => do let n ← (String.ofList ds).toNat?; pure (.char n, rest)
+      | 'f' :: ds => do let n ← (String.ofList ds).toNat?; pure (.f32 n, rest)
+      | 'd' :: ds => do let n ← (String.ofList ds).toNat?; pure (.f64 n, rest)
+      | 's' :: ds => do let bs ← parseHex (String.ofList ds); pure (.str bs, rest)
+      | _ => none
+partial def parseVals : Nat → List String → Option (ValList × List String)
+  | 0, r => some (.nil, r)
+  | n + 1, r => do
+      let (v, r) ← parseVal r
+      let (vs, r) ← parseVals n r
+      pure (.cons v vs, r)
+end
+
+def answer (line : String) : String :=
+  let toks := (line.trimAscii.toString.splitOn " ").filter (· ≠ "")
+  match toks with
+  | ["SIP", h] =>
+      match parseHex h with
+      | some bs => hex128 (sip128 bs)
+      | none => "bad-op"
+  | "H" :: seed :: rest =>
+      match seed.toNat? with
+      | none => "bad-op"
+      | some seed =>
+        if seed ≥ M64 then "bad-op" else
+        match parseTy rest with
+        | some (t, "|" :: vtoks) =>
+            match parseVal vtoks with
+            | some (v, []) =>
+                if !t.wf then "bad-op"
+                else if !hasType t v then "ill-typed"
+                else hexOfBytes (topStream seed t v) ++ " " ++ hex128 (hash128 seed t v)
+            | _ => "bad-op"
+        | _ => "bad-op"
+  | _ => "bad-op"
+
+partial def loop (hin hout : IO.FS.Stream) : IO Unit := do
+  let line ← hin.getLine
+  if line.isEmpty then return
+  hout.putStrLn (answer line)
+  loop hin hout
+
+def main : IO Unit := do
+  let hin ← IO.getStdin
+  let hout ← IO.getStdout
+  loop hin hout
+  hout.flush
